@@ -808,31 +808,33 @@ theorem objHeadA_run (pj : PJ) (e : Env) (tmp : Iter) (f : Nat) (rest : List Stm
     simp only [] at hA ⊢
     have inv1 : ItInv pj "tmp" tmp1 ((advEnv e "tmp" tmp1 pj).set "typ" (.u8 typ)) :=
       (inv.adv tmp1 (by decide) (by decide) (by decide)).set _ _ (by decide)
-    obtain ⟨g1, g2, g3, g4, g5⟩ := iterAt_get_tmp _ _ inv1.it
+    have hT : ((advEnv e "tmp" tmp1 pj).set "typ" (.u8 typ)).get "typ" = some (.u8 typ) := Env.get_set_self _ _ _
     simp only [objHeadA, List.cons_append, List.nil_append]
     rw [exec, hA]
     simp only []
     rw [exec]
+    generalize (advEnv e "tmp" tmp1 pj).set "typ" (.u8 typ) = E1 at inv1 hT ⊢
+    obtain ⟨g1, g2, g3, g4, g5⟩ := iterAt_get_tmp _ _ inv1.it
     by_cases h1 : typ = typeString
     · have hb1 : (typ != 2) = false := by simp [h1, typeString]
       by_cases h2 : tmp1.off + 1 ≥ tmp1.lim
       · have h2' : (tmp1.lim : Int) ≤ tmp1.off + 1 := by omega
         have hn : (typ == typeNone) = false := by rw [h1]; decide
         have hn' : (typ == 0) = false := by rw [h1]; decide
-        simp [h1, h2, h2', hb1, hn, hn', g1, g5, -exec]
+        simp [h1, h2, h2', hb1, hn, hn', g1, g5, hT, -exec]
         simp [typeString]
       · have h2' : ¬ (tmp1.lim : Int) ≤ tmp1.off + 1 := by omega
-        simp [h1, h2, h2', hb1, g1, g5, -exec]
+        simp [h1, h2, h2', hb1, g1, g5, hT, -exec]
         simp only [typeString]
         generalize exec goFuns (f + 1) rest _ = out
         cases out <;> rfl
     · have hb1 : (typ != 2) = true := by simpa [typeString] using h1
       by_cases hn : typ = typeNone
       · subst hn
-        simp [h1, hb1, typeNone, -exec]
+        simp [h1, hb1, typeNone, hT, -exec]
       · have hn' : (typ == 0) = false := by simpa [typeNone] using hn
         have hn'' : (typ == typeNone) = false := by simpa using hn
-        simp [h1, hb1, hn, hn', hn'', -exec]
+        simp [h1, hb1, hn, hn', hn'', hT, -exec]
   | panic =>
     intro hA
     simp only [] at hA ⊢
